@@ -10,3 +10,4 @@ require (
 	golang.org/x/mod v0.22.0 // indirect
 	golang.org/x/sync v0.10.0 // indirect
 )
+require github.com/anishathalye/porcupine v1.3.0
